@@ -59,8 +59,10 @@ func c04Case(w *fw.W, idx int, r *fw.Rand) {
 	switch {
 	case kind < 4:
 		c04Direct(w, idx, r)
-	case kind < 8:
+	case kind < 7:
 		c04VM(w, idx, r)
+	case kind < 8:
+		c04VMMulti(w, idx, r)
 	default:
 		c04Illegal(w, idx, r)
 	}
@@ -375,6 +377,111 @@ func c04VM(w *fw.W, idx int, r *fw.Rand) {
 	if idx%9000 == 5 {
 		w.Sample(map[string]any{"kind": "vm", "src": src, "seed": seed, "ret": vm.Ret.ToString(), "detail": trunc(span.Text, 80), "drawn": len(tap.drawn)})
 	}
+}
+
+// c04CommonTerm builds one XdY term with modifiers and its rule parameters.
+func c04CommonTerm(r *fw.Rand) (string, mon.CommonParams) {
+	times := fw.PickT(r, []int64{1, 2, 3, 4, 5, 6})
+	sides := fw.PickT(r, []int64{2, 3, 6, 10, 20, 100})
+	p := mon.CommonParams{Times: times, Sides: sides}
+	src := fmt.Sprint(times) + "d" + fmt.Sprint(sides)
+	if r.P(1, 2) {
+		p.Mode = int64(1 + r.Intn(4))
+		p.Count = int64(r.Range(1, int(times)))
+		src += r.Pick(keepSpell[p.Mode]) + fmt.Sprint(p.Count)
+	}
+	switch r.Intn(4) {
+	case 0:
+		v := fw.PickT(r, []int64{1, 2, sides/2 + 1, sides})
+		p.Min = &v
+		src += "min" + fmt.Sprint(v)
+	case 1:
+		v := fw.PickT(r, []int64{1, 2, sides/2 + 1, sides})
+		p.Max = &v
+		src += "max" + fmt.Sprint(v)
+	}
+	return src, p
+}
+
+// c04VMMulti: several dice terms in one evaluation; every term must be judged by its own
+// parameters only (state of an earlier term must not leak into a later one).
+func c04VMMulti(w *fw.W, idx int, r *fw.Rand) {
+	k := r.Range(2, 4)
+	var srcs []string
+	var ps []mon.CommonParams
+	for i := 0; i < k; i++ {
+		s, p := c04CommonTerm(r)
+		srcs = append(srcs, s)
+		ps = append(ps, p)
+	}
+	sum := r.Bool()
+	src := "[" + strings.Join(srcs, ", ") + "]"
+	if sum {
+		src = strings.Join(srcs, r.Pick([]string{"+", " + "}))
+	}
+	cfg := AllDice()
+	cfg.Seed = r.U64() | 1
+	switch r.Intn(4) {
+	case 0:
+		cfg.Min = true
+	case 1:
+		cfg.Max = true
+	}
+	desc := fmt.Sprintf("cfg=%s src=%q", cfg, src)
+	w.Begin(idx, desc)
+	tap := newRollTap()
+	hook.Set(&tap.Monitor)
+	vm := cfg.NewVM()
+	var err error
+	pv, st := fw.Guard(func() { err = vm.Run(src) })
+	hook.Set(nil)
+	w.Eval(1)
+	w.Count("vm_multi_term_programs", 1)
+	if pv != nil {
+		w.Violate(idx, "panic", fw.PanicKey(pv, st), desc, fmt.Sprint(pv), nil)
+		return
+	}
+	if err != nil || vm.RestInput != "" {
+		w.Violate(idx, "dice-rule", "dice|vm|legal-term-rejected", desc, fmt.Sprintf("err=%v rest=%q", err, vm.RestInput), nil)
+		return
+	}
+	var spans []ds.BufferSpan
+	for _, s := range vm.DetailSpans {
+		if s.Tag == "dice" {
+			spans = append(spans, s)
+		}
+	}
+	if len(spans) != k {
+		w.Violate(idx, "dice-rule", "dice|vm|multi|span-count", desc, fmt.Sprintf("%d dice spans for %d terms", len(spans), k), nil)
+		return
+	}
+	off := 0
+	var total int64
+	for i, p := range ps {
+		n := int(p.Times)
+		if off+n > len(tap.drawn) {
+			w.Violate(idx, "dice-rule", "dice|vm|multi|dice-count", desc, fmt.Sprintf("term %d needs %d dice, only %d drawn in total", i, n, len(tap.drawn)), nil)
+			return
+		}
+		drawn := tap.drawn[off : off+n]
+		off += n
+		sv, _ := spans[i].Ret.ReadInt()
+		total += int64(sv)
+		// in min/max mode the tap reports the forced faces; the rule check is the same
+		if bad := mon.CheckCommon(p, int64(sv), spans[i].Text, drawn); bad != "" {
+			w.Violate(idx, "dice-rule", "dice|vm|multi|"+classOf(bad), desc, fmt.Sprintf("term %d (%s): %s ; detail %q", i, srcs[i], bad, spans[i].Text), nil)
+		}
+	}
+	if off != len(tap.drawn) {
+		w.Violate(idx, "dice-rule", "dice|vm|multi|dice-count", desc, fmt.Sprintf("%d dice drawn, the terms account for %d", len(tap.drawn), off), nil)
+	}
+	if sum {
+		if got, ok := vm.Ret.ReadInt(); !ok || int64(got) != total {
+			w.Violate(idx, "dice-rule", "dice|vm|multi|sum", desc, fmt.Sprintf("result %s but the terms' values add up to %d", vm.Ret.ToRepr(), total), nil)
+		}
+	}
+	w.Count("dice_drawn", int64(len(tap.drawn)))
+	w.Note(fw.Hash64(desc))
 }
 
 // headerAll extracts the total dice count N from "成功S/N ..." or "出目V/N ...".
